@@ -619,3 +619,109 @@ func ruleR19f(c *Ctx) {
 	}
 	c.floor("R19f", "scanner error emitters", 1, n)
 }
+
+// R19g: inside the parser's recover handlers (deferred literals and handler functions) a recovered value is
+// re-panicked only as a runtime error (under an assertion to runtime.Error): anything else is a user-caused
+// failure and must leave through the positioned constructor of the parser that handles it, not be passed
+// on with whatever position (or none) it carried.
+func ruleR19g(c *Ctx) {
+	p := c.pkg("parse")
+	if p == nil {
+		return
+	}
+	info := p.TypesInfo
+	handlers := recoverHandlers(c, "parse")
+	n := 0
+	for _, fd := range c.allFuncDecls("parse") {
+		fn, _ := info.Defs[fd.Name].(*types.Func)
+		var regions []ast.Node
+		if fn != nil && handlers[fn] {
+			regions = append(regions, fd.Body)
+		}
+		ast.Inspect(fd.Body, func(x ast.Node) bool {
+			if d, ok := x.(*ast.DeferStmt); ok {
+				if fl, ok := d.Call.Fun.(*ast.FuncLit); ok {
+					callsRecover := false
+					ast.Inspect(fl.Body, func(y ast.Node) bool {
+						if call, ok := y.(*ast.CallExpr); ok {
+							if id, ok := call.Fun.(*ast.Ident); ok && id.Name == "recover" {
+								if _, isB := info.Uses[id].(*types.Builtin); isB {
+									callsRecover = true
+								}
+							}
+						}
+						return true
+					})
+					if callsRecover {
+						regions = append(regions, fl.Body)
+					}
+				}
+			}
+			return true
+		})
+		ord := 0
+		for _, rg := range regions {
+			var stack []ast.Node
+			ast.Inspect(rg, func(x ast.Node) bool {
+				if x == nil {
+					stack = stack[:len(stack)-1]
+					return true
+				}
+				stack = append(stack, x)
+				call, ok := x.(*ast.CallExpr)
+				if !ok {
+					return true
+				}
+				id, ok := call.Fun.(*ast.Ident)
+				if !ok || id.Name != "panic" {
+					return true
+				}
+				if _, isB := info.Uses[id].(*types.Builtin); !isB {
+					return true
+				}
+				n++
+				ord++
+				// innermost enclosing if: its init/cond asserts the recovered value to runtime.Error
+				guarded := false
+				for i := len(stack) - 2; i >= 0 && !guarded; i-- {
+					ifs, ok := stack[i].(*ast.IfStmt)
+					if !ok {
+						continue
+					}
+					inThen := false
+					ast.Inspect(ifs.Body, func(y ast.Node) bool {
+						if y == ast.Node(call) {
+							inThen = true
+						}
+						return true
+					})
+					if !inThen {
+						break
+					}
+					check := func(nd ast.Node) {
+						if nd == nil {
+							return
+						}
+						ast.Inspect(nd, func(y ast.Node) bool {
+							if ta, ok := y.(*ast.TypeAssertExpr); ok && ta.Type != nil {
+								if tv, ok := info.Types[ta.Type]; ok {
+									if pth, tn, ok := pkgAndName(tv.Type); ok && pth == "runtime" && tn == "runtime.Error" {
+										guarded = true
+									}
+								}
+							}
+							return true
+						})
+					}
+					check(ifs.Init)
+					check(ifs.Cond)
+					break
+				}
+				c.check(guarded, "R19g", fmt.Sprintf("%s re-panic#%d", c.declKey("parse", fd), ord), call.Pos(),
+					"only a runtime error is passed on unchanged", "a recovered failure that is not a runtime error is passed on unchanged: it keeps the position (line 1 of a nested expression, or none) it was raised with instead of being positioned by this parser")
+				return true
+			})
+		}
+	}
+	c.floor("R19g", "re-panics inside the parser's recover handlers", 2, n)
+}
